@@ -67,7 +67,8 @@ const std::vector<Opt>& lt_opts() { static std::vector<Opt> v = {{false, ""}, {t
 const std::vector<std::string>& name_opts() {
   static std::vector<std::string> v = {"X", "Dir/Y", "No/Such", "/abs/zone", "/abs/missing", "file:X", "file:/abs/zone", "file:", "file:file:X", "", ":X", "UTC", "UTC0",
                                        "Fixed/UTC+05:30:00", "Fixed/UTC+25:00:00", "fixed/utc+01:00:00", "ADir", "NoPerm", "Trunc", "Leap", "BadMagic", "Empty", "V1", "Real",
-                                       "X/", "./X", "localtime", "Dir", "Fixed/UTC-00:00:00", "Fixed/UTC+24:00:00", "file:UTC", "/etc/localtime", "file:No/Such", "Dir//Y", "MarkF", "TruncNL", "TruncFooter"};
+                                       "X/", "./X", "localtime", "Dir", "Fixed/UTC-00:00:00", "Fixed/UTC+24:00:00", "file:UTC", "/etc/localtime", "file:No/Such", "Dir//Y", "MarkF", "TruncNL", "TruncFooter",
+                                       "Fixed/UTC+24:00:01", "Fixed/UTC+5:30:00", "UTC00", "utc", "Fixed/UTC+00:00:00", "Fixed/UTC-24:00:00", "Fixed/UTC+05:30", "file:Fixed/UTC+05:30:00"};
   return v;
 }
 
